@@ -116,6 +116,10 @@ impl Game {
         self.set_position(position, place)
     }
 
+    pub fn verif_set_king_position(&mut self, player: Player, position: Position) {
+        self.set_king_position(player, position)
+    }
+
     pub fn verif_is_endgame(&self) -> bool {
         self.is_endgame()
     }
